@@ -636,24 +636,30 @@ func HugeRule(t *rapid.T) *Spec {
 	return s
 }
 
-// Blowup builds a small grammar whose LR(0) automaton has exponentially many
-// states ((a|b)* a (a|b)^n): yaccgo must stop at its 2000-state limit.
+// Blowup builds the classic grammar whose LR(0) automaton has exponentially
+// many states: S : X1 | ... | Xn ; Xi : 'z' | c Xi for every letter c but the
+// i-th (the states are the subsets of {1..n}). yaccgo must stop at its
+// 2000-state limit with a diagnostic.
 func Blowup(t *rapid.T) *Spec {
 	s := base()
-	s.Terms = []Term{{Name: "A", Decl: "token"}, {Name: "B", Decl: "token"}}
-	s.NTs = []NonTerm{{Name: "s"}, {Name: "x"}, {Name: "y"}}
-	n := rapid.IntRange(12, 16).Draw(t, "n")
-	rhs := []int{2 + 1, 0}
+	n := rapid.IntRange(11, 14).Draw(t, "n")
 	for i := 0; i < n; i++ {
-		rhs = append(rhs, 2+2)
+		s.Terms = append(s.Terms, Term{Name: fmt.Sprintf("L%02d", i), Decl: "token"})
 	}
-	s.Rules = []Rule{
-		{LHS: 0, RHS: rhs, Prec: -1},
-		{LHS: 1, Prec: -1},
-		{LHS: 1, RHS: []int{2 + 1, 0}, Prec: -1},
-		{LHS: 1, RHS: []int{2 + 1, 1}, Prec: -1},
-		{LHS: 2, RHS: []int{0}, Prec: -1},
-		{LHS: 2, RHS: []int{1}, Prec: -1},
+	s.Terms = append(s.Terms, Term{Name: "Z", Decl: "token"})
+	nt := len(s.Terms)
+	s.NTs = []NonTerm{{Name: "s"}}
+	for i := 0; i < n; i++ {
+		s.NTs = append(s.NTs, NonTerm{Name: fmt.Sprintf("x%02d", i)})
+		s.Rules = append(s.Rules, Rule{LHS: 0, RHS: []int{nt + 1 + i}, Prec: -1})
+	}
+	for i := 0; i < n; i++ {
+		s.Rules = append(s.Rules, Rule{LHS: 1 + i, RHS: []int{n}, Prec: -1})
+		for c := 0; c < n; c++ {
+			if c != i {
+				s.Rules = append(s.Rules, Rule{LHS: 1 + i, RHS: []int{c, nt + 1 + i}, Prec: -1})
+			}
+		}
 	}
 	s.Start = 0
 	return s
